@@ -297,7 +297,8 @@ impl Matrix {
     pub fn reshape_mut(&mut self, nrows: i32, ncols: i32) -> &mut Self {
         let size = self.size();
         if nrows > 0 && ncols > 0 {
-            assert_eq!(nrows * ncols, size as i32, "invalid shape");
+            // the product is taken in i64: in i32 it can wrap around to `size`
+            assert_eq!(nrows as i64 * ncols as i64, size as i64, "invalid shape");
             self.nrows = nrows as usize;
             self.ncols = ncols as usize;
         } else if nrows < 0 {
@@ -329,7 +330,8 @@ impl Matrix {
     pub fn reshape(&self, nrows: i32, ncols: i32) -> Self {
         let size = self.size() as i32;
         let (newrows, newcols) = if nrows > 0 && ncols > 0 {
-            assert_eq!(nrows * ncols, size as i32, "invalid shape");
+            // the product is taken in i64: in i32 it can wrap around to `size`
+            assert_eq!(nrows as i64 * ncols as i64, size as i64, "invalid shape");
             (nrows, ncols)
         } else if nrows < 0 {
             assert!(nrows == -1 && ncols > 0, "invalid shape");
